@@ -210,6 +210,13 @@ pub struct SimRing {
     pub next_seq: u64,
     /// Requests cancelled by SYNC_CANCEL.
     pub sync_cancels: u32,
+    /// K13 (IORING_SETUP_DEFER_TASKRUN): completions produced by task work
+    /// that has not run yet; they become visible when the submitter enters
+    /// the kernel with IORING_ENTER_GETEVENTS.
+    pub deferred: VecDeque<PostedCqe>,
+    /// The simulator is executing the submission path of io_uring_enter:
+    /// completions generated now are posted directly (inline completion).
+    pub inline: bool,
 }
 
 unsafe impl Send for SimRing {}
@@ -601,6 +608,8 @@ impl Sim {
             posted: Vec::new(),
             next_seq: 1,
             sync_cancels: 0,
+            deferred: VecDeque::new(),
+            inline: false,
         };
         ring.word(layout.sq_head).store(self.cfg.sq_start, Ordering::Relaxed);
         ring.word(layout.sq_tail).store(self.cfg.sq_start, Ordering::Relaxed);
@@ -789,26 +798,54 @@ impl SimRing {
     pub fn post_raw(&mut self, cqe: Cqe, req: u64) -> u64 {
         let seq = self.next_seq;
         self.next_seq += 1;
-        let mut posted = PostedCqe { seq, cqe, req, position: None };
+        let posted = PostedCqe { seq, cqe, req, position: None };
+        if self.flags & abi::SETUP_DEFER_TASKRUN != 0 && !self.inline {
+            // K13: produced by task work, which only runs when the submitter
+            // task enters the kernel to wait for events.
+            self.deferred.push_back(posted.clone());
+            ev(SimEvent::Posted { seq, req, cqe, overflowed: false });
+            self.posted.push(posted);
+            // A task waiting in io_uring_enter is woken to run the work.
+            crate::sched::notify(crate::sched::Reason::Ring(self.fd));
+            return seq;
+        }
+        let overflowed = !(self.overflow.is_empty() && self.cq_ready() < self.cq_entries);
+        ev(SimEvent::Posted { seq, req, cqe, overflowed });
+        self.posted.push(posted.clone());
+        self.place(posted);
+        seq
+    }
+
+    /// Put a generated completion into the ring, or on the overflow list.
+    fn place(&mut self, posted: PostedCqe) {
         let overflowed = !(self.overflow.is_empty() && self.cq_ready() < self.cq_entries);
         if overflowed {
-            self.overflow.push_back(posted.clone());
+            self.overflow.push_back(posted);
             self.set_sq_flag(abi::SQ_CQ_OVERFLOW, true);
         } else {
             let tail = self.cq_tail();
-            unsafe { self.cqe_slot(tail).write_volatile(cqe) };
-            posted.position = Some(tail);
+            unsafe { self.cqe_slot(tail).write_volatile(posted.cqe) };
+            if let Some(p) = self.posted.iter_mut().rev().find(|p| p.seq == posted.seq) {
+                p.position = Some(tail);
+            }
             self.word(self.layout.cq_tail).store(tail.wrapping_add(1), Ordering::Release);
-            if req != 0 && cqe.flags & abi::CQE_F_MORE == 0 {
+            if posted.req != 0 && posted.cqe.flags & abi::CQE_F_MORE == 0 {
                 // The final completion is visible: user space may process it
                 // (and free the operation state) from now on.
-                track::release(req | regions::STATE_HOLD);
+                track::release(posted.req | regions::STATE_HOLD);
             }
             crate::sched::notify(crate::sched::Reason::Ring(self.fd));
         }
-        ev(SimEvent::Posted { seq, req, cqe, overflowed });
-        self.posted.push(posted);
-        seq
+    }
+
+    /// K13: run the deferred task work (io_uring_enter with GETEVENTS).
+    pub fn flush_deferred(&mut self) -> u32 {
+        let mut n = 0;
+        while let Some(p) = self.deferred.pop_front() {
+            self.place(p);
+            n += 1;
+        }
+        n
     }
 
     /// Move overflowed CQEs into the ring while there is room.
